@@ -399,6 +399,13 @@ func fnFlushDb(ctx *cmdContext, args map[string]any) (output respValue, err erro
 }
 
 func fnDbSize(ctx *cmdContext, args map[string]any) (output respValue, err error) {
+	if ctx.multi {
+		// running inside EXEC, which already owns the database
+		ctx.dsc.lock()
+		output.data = respInt(ctx.dsc.ds.data.count)
+		ctx.dsc.unlock()
+		return
+	}
 	size, _ := ctx.cs.dss.dbSize(ctx.cs.selectedDb)
 	output.data = size
 	return
